@@ -1,6 +1,518 @@
 package main
 
-// tryReplay: turn a solver model into a Go test against the real code.
+// Replay of a solver model against the real code: the model's parameter
+// values become a Go test that is injected into the package with
+// `go test -overlay` (nothing is written to /repo).
+
+import (
+	"bytes"
+	"context"
+	"encoding/json"
+	"fmt"
+	"go/types"
+	"math/big"
+	"os"
+	"os/exec"
+	"path/filepath"
+	"strings"
+	"time"
+)
+
+// ---- tiny s-expression reader for (get-value ...) output ----
+
+type sexp struct {
+	atom string
+	list []*sexp
+}
+
+func parseSexps(s string) []*sexp {
+	var out []*sexp
+	pos := 0
+	var parse func() *sexp
+	skip := func() {
+		for pos < len(s) && (s[pos] == ' ' || s[pos] == '\n' || s[pos] == '\t' || s[pos] == '\r') {
+			pos++
+		}
+	}
+	parse = func() *sexp {
+		skip()
+		if pos >= len(s) {
+			return nil
+		}
+		if s[pos] == '(' {
+			pos++
+			n := &sexp{}
+			for {
+				skip()
+				if pos >= len(s) {
+					return n
+				}
+				if s[pos] == ')' {
+					pos++
+					return n
+				}
+				c := parse()
+				if c == nil {
+					return n
+				}
+				n.list = append(n.list, c)
+			}
+		}
+		if s[pos] == '|' {
+			j := strings.IndexByte(s[pos+1:], '|')
+			if j < 0 {
+				pos = len(s)
+				return nil
+			}
+			a := s[pos : pos+j+2]
+			pos += j + 2
+			return &sexp{atom: a}
+		}
+		st := pos
+		for pos < len(s) && !strings.ContainsRune(" \n\t\r()", rune(s[pos])) {
+			pos++
+		}
+		return &sexp{atom: s[st:pos]}
+	}
+	for {
+		skip()
+		if pos >= len(s) {
+			break
+		}
+		if s[pos] == ')' {
+			pos++
+			continue
+		}
+		n := parse()
+		if n == nil {
+			break
+		}
+		out = append(out, n)
+	}
+	return out
+}
+
+func (x *sexp) String() string {
+	if x.list == nil && x.atom != "" {
+		return x.atom
+	}
+	var parts []string
+	for _, c := range x.list {
+		parts = append(parts, c.String())
+	}
+	return "(" + strings.Join(parts, " ") + ")"
+}
+
+func sexpInt(x *sexp) (*big.Int, bool) {
+	if x == nil {
+		return nil, false
+	}
+	if x.list == nil {
+		n, ok := new(big.Int).SetString(x.atom, 10)
+		return n, ok
+	}
+	if len(x.list) == 2 && x.list[0].atom == "-" {
+		n, ok := sexpInt(x.list[1])
+		if ok {
+			return new(big.Int).Neg(n), true
+		}
+	}
+	return nil, false
+}
+
+// getValues runs z3 on the query with (get-value terms) and returns term->value.
+func getValues(queryFile string, extraAsserts []string, terms []string, dir, name string) (map[string]*sexp, bool) {
+	b, err := os.ReadFile(queryFile)
+	if err != nil {
+		return nil, false
+	}
+	txt := string(b)
+	i := strings.LastIndex(txt, "(check-sat)")
+	if i < 0 {
+		return nil, false
+	}
+	var sb strings.Builder
+	sb.WriteString(txt[:i])
+	for _, a := range extraAsserts {
+		sb.WriteString("(assert " + a + ")\n")
+	}
+	sb.WriteString("(check-sat)\n(get-value (" + strings.Join(terms, " ") + "))\n")
+	p := filepath.Join(dir, name+".gv.smt2")
+	os.WriteFile(p, []byte(sb.String()), 0o644)
+	ctx, cancel := context.WithTimeout(context.Background(), 30*time.Second)
+	defer cancel()
+	cmd := exec.CommandContext(ctx, "z3-new", "-T:25", p)
+	var out bytes.Buffer
+	cmd.Stdout = &out
+	cmd.Stderr = &out
+	cmd.Run()
+	s := out.String()
+	if !strings.HasPrefix(strings.TrimSpace(s), "sat") {
+		return nil, false
+	}
+	rest := s[strings.Index(s, "sat")+3:]
+	xs := parseSexps(rest)
+	if len(xs) == 0 {
+		return nil, false
+	}
+	res := map[string]*sexp{}
+	for k, pair := range xs[0].list {
+		if len(pair.list) == 2 && k < len(terms) {
+			res[terms[k]] = pair.list[1]
+		}
+	}
+	return res, true
+}
+
+type replayParam struct {
+	Name string
+	T    types.Type
+	V    Val
+}
+
+const maxReplayElems = 1 << 16
+
+// tryReplay builds and runs the test. Only functions whose parameters are
+// integers, booleans, strings, slices of integers and pointers to arrays of
+// integers are replayed; anything else yields no replay.
 func tryReplay(eng *Engine, o *Obligation, dir, name string) map[string]interface{} {
-	return nil
+	c := o.ctx
+	if c == nil || o.queryFile == "" || len(c.replayParams) == 0 && len(c.fn.Params) > 0 {
+		return nil
+	}
+	fn := c.fn
+	if fn.Signature.Recv() != nil || fn.Pkg == nil {
+		return map[string]interface{}{"confirmed": false, "reason": "methods are not replayed automatically"}
+	}
+	// pass 1: scalars and slice headers
+	var terms []string
+	for _, p := range c.replayParams {
+		switch p.V.K {
+		case kInt, kBool:
+			terms = append(terms, p.V.S)
+		case kStr:
+			terms = append(terms, sx("slen", p.V.S))
+		case kSlice:
+			terms = append(terms, p.V.Ref, p.V.Off, p.V.Len, p.V.Cap)
+		case kPtr:
+			terms = append(terms, p.V.Ref)
+		case kFunc, kIface, kOpaque, kMap:
+			// passed as a fixed stand-in below
+		default:
+			return map[string]interface{}{"confirmed": false, "reason": fmt.Sprintf("parameter %s of unsupported kind", p.Name)}
+		}
+	}
+	if len(terms) == 0 {
+		terms = append(terms, "0")
+	}
+	// prefer small models: try progressively weaker size limits
+	var vals map[string]*sexp
+	ok := false
+	for _, lim := range []int64{64, 4096, 1 << 20, 0} {
+		var small []string
+		if lim > 0 {
+			for _, p := range c.replayParams {
+				switch p.V.K {
+				case kInt:
+					small = append(small, and(sx("<=", num(-lim), p.V.S), sx("<=", p.V.S, num(lim))))
+				case kSlice:
+					small = append(small, sx("<=", p.V.Cap, num(lim)), sx("<=", p.V.Off, num(lim)))
+				case kStr:
+					small = append(small, sx("<=", sx("slen", p.V.S), num(lim)))
+				}
+			}
+		}
+		vals, ok = getValues(o.queryFile, small, terms, dir, name+".1")
+		if ok {
+			break
+		}
+	}
+	if !ok {
+		return map[string]interface{}{"confirmed": false, "reason": "model values could not be read back"}
+	}
+	var pins []string
+	for _, t := range terms {
+		if v, ok := vals[t]; ok {
+			pins = append(pins, eq(t, v.String()))
+		}
+	}
+	intOf := func(t string) (int64, bool) {
+		n, ok := sexpInt(vals[t])
+		if !ok || !n.IsInt64() {
+			return 0, false
+		}
+		return n.Int64(), true
+	}
+	// pass 2: contents
+	var terms2 []string
+	type sliceInfo struct {
+		ref, off, ln, cp int64
+	}
+	sinfo := map[string]sliceInfo{}
+	for _, p := range c.replayParams {
+		switch p.V.K {
+		case kSlice:
+			ref, _ := intOf(p.V.Ref)
+			off, _ := intOf(p.V.Off)
+			ln, ok1 := intOf(p.V.Len)
+			cp, ok2 := intOf(p.V.Cap)
+			if !ok1 || !ok2 || cp > maxReplayElems {
+				return map[string]interface{}{"confirmed": false, "reason": fmt.Sprintf("slice %s too large to build (cap %v)", p.Name, vals[p.V.Cap])}
+			}
+			sinfo[p.Name] = sliceInfo{ref, off, ln, cp}
+			if ref != 0 {
+				key := heapKey(p.V.Root, nil)
+				h := c.epochGet(c.entry.ep, key)
+				for i := int64(0); i < cp; i++ {
+					terms2 = append(terms2, sx("select", sx("select", h, p.V.Ref), add(p.V.Off, num(i))))
+				}
+			}
+		case kStr:
+			ln, ok1 := intOf(sx("slen", p.V.S))
+			if !ok1 || ln > maxReplayElems {
+				return map[string]interface{}{"confirmed": false, "reason": "string too large"}
+			}
+			for i := int64(0); i < ln; i++ {
+				terms2 = append(terms2, sx("sat", p.V.S, num(i)))
+			}
+		case kPtr:
+			if at, ok := pointee(p.V).Underlying().(*types.Array); ok {
+				key := heapKey(at.Elem(), nil)
+				h := c.epochGet(c.entry.ep, key)
+				for i := int64(0); i < at.Len(); i++ {
+					terms2 = append(terms2, sx("select", sx("select", h, p.V.Ref), num(i)))
+				}
+			} else {
+				return map[string]interface{}{"confirmed": false, "reason": "pointer parameter to non-array"}
+			}
+		}
+	}
+	vals2 := map[string]*sexp{}
+	if len(terms2) > 0 {
+		// the heap constants may not be declared in the prefix if never used; guard by checking the text
+		qb, _ := os.ReadFile(o.queryFile)
+		var usable []string
+		for _, t := range terms2 {
+			okT := true
+			for _, w := range strings.FieldsFunc(t, func(r rune) bool { return r == '(' || r == ')' || r == ' ' }) {
+				if strings.HasPrefix(w, "H_") && !bytes.Contains(qb, []byte("declare-const "+w+" ")) && !bytes.Contains(qb, []byte("define-fun "+w+" ")) {
+					okT = false
+				}
+			}
+			if okT {
+				usable = append(usable, t)
+			}
+		}
+		if len(usable) > 0 {
+			v2, ok := getValues(o.queryFile, pins, usable, dir, name+".2")
+			if ok {
+				vals2 = v2
+			}
+		}
+	}
+	elem := func(t string) string {
+		if v, ok := vals2[t]; ok {
+			if n, ok := sexpInt(v); ok {
+				return n.String()
+			}
+		}
+		return "0"
+	}
+	// build the test
+	var body strings.Builder
+	var args []string
+	inputs := map[string]interface{}{}
+	qual := func(t types.Type) string {
+		return types.TypeString(t, func(p *types.Package) string {
+			if p == fn.Pkg.Pkg {
+				return ""
+			}
+			return p.Name()
+		})
+	}
+	backing := map[int64]string{}
+	for _, p := range c.replayParams {
+		vn := "a_" + sanitize(p.Name)
+		switch p.V.K {
+		case kInt:
+			n, _ := sexpInt(vals[p.V.S])
+			if n == nil {
+				n = big.NewInt(0)
+			}
+			fmt.Fprintf(&body, "\tvar %s %s = %s\n", vn, qual(p.T), n.String())
+			inputs[p.Name] = n.String()
+		case kBool:
+			b := "false"
+			if v, ok := vals[p.V.S]; ok && v.atom == "true" {
+				b = "true"
+			}
+			fmt.Fprintf(&body, "\tvar %s %s = %s\n", vn, qual(p.T), b)
+			inputs[p.Name] = b
+		case kStr:
+			ln, _ := intOf(sx("slen", p.V.S))
+			var bs []string
+			for i := int64(0); i < ln; i++ {
+				bs = append(bs, elem(sx("sat", p.V.S, num(i))))
+			}
+			fmt.Fprintf(&body, "\tvar %s %s = %s(string([]byte{%s}))\n", vn, qual(p.T), qual(p.T), strings.Join(bs, ","))
+			inputs[p.Name] = bs
+		case kSlice:
+			si := sinfo[p.Name]
+			if si.ref == 0 {
+				fmt.Fprintf(&body, "\tvar %s %s\n", vn, qual(p.T))
+				inputs[p.Name] = nil
+				break
+			}
+			key := heapKey(p.V.Root, nil)
+			h := c.epochGet(c.entry.ep, key)
+			var es []string
+			for i := int64(0); i < si.cp; i++ {
+				es = append(es, elem(sx("select", sx("select", h, p.V.Ref), add(p.V.Off, num(i)))))
+			}
+			bk, shared := backing[si.ref]
+			et := qual(p.V.Root)
+			if !shared {
+				// backing array covers [0, off+cap)
+				bk = "bk_" + sanitize(p.Name)
+				fmt.Fprintf(&body, "\t%s := make([]%s, %d)\n", bk, et, si.off+si.cp)
+				backing[si.ref] = bk
+			}
+			fmt.Fprintf(&body, "\tif len(%s) < %d { %s = append(%s, make([]%s, %d-len(%s))...) }\n", bk, si.off+si.cp, bk, bk, et, si.off+si.cp, bk)
+			fmt.Fprintf(&body, "\tcopy(%s[%d:], []%s{%s})\n", bk, si.off, et, strings.Join(es, ","))
+			fmt.Fprintf(&body, "\tvar %s %s = %s[%d:%d:%d]\n", vn, qual(p.T), bk, si.off, si.off+si.ln, si.off+si.cp)
+			inputs[p.Name] = map[string]interface{}{"len": si.ln, "cap": si.cp, "off": si.off, "obj": si.ref, "elems": es}
+		case kPtr:
+			at := pointee(p.V).Underlying().(*types.Array)
+			key := heapKey(at.Elem(), nil)
+			h := c.epochGet(c.entry.ep, key)
+			var es []string
+			for i := int64(0); i < at.Len(); i++ {
+				es = append(es, elem(sx("select", sx("select", h, p.V.Ref), num(i))))
+			}
+			ref, _ := intOf(p.V.Ref)
+			if ref == 0 {
+				fmt.Fprintf(&body, "\tvar %s %s\n", vn, qual(p.T))
+			} else {
+				fmt.Fprintf(&body, "\t%s := &%s{%s}\n", vn, qual(pointee(p.V)), strings.Join(es, ","))
+			}
+			inputs[p.Name] = es
+		case kFunc, kIface, kOpaque, kMap:
+			stand := c.con.ReplayArgs[p.Name]
+			if stand == "" {
+				return map[string]interface{}{"confirmed": false, "reason": fmt.Sprintf("parameter %s needs a replay_arg stand-in", p.Name), "inputs": inputs}
+			}
+			fmt.Fprintf(&body, "\t%s := %s\n", vn, stand)
+			inputs[p.Name] = stand
+		}
+		args = append(args, vn)
+	}
+	pkgName := fn.Pkg.Pkg.Name()
+	imports := ""
+	for _, im := range c.con.ReplayImports {
+		imports += fmt.Sprintf("\t%q\n", im)
+	}
+	src := fmt.Sprintf(`package %s
+
+import (
+	"fmt"
+	"testing"
+%s)
+
+func TestGovcReplay(t *testing.T) {
+	defer func() {
+		if r := recover(); r != nil {
+			fmt.Printf("GOVC-REPLAY panic: %%v\n", r)
+		} else {
+			fmt.Println("GOVC-REPLAY returned normally")
+		}
+	}()
+%s	res := fmt.Sprint(func() []interface{} { return govcWrap(%s) }())
+	if len(res) > 400 {
+		res = res[:400]
+	}
+	fmt.Println("GOVC-REPLAY result:", res)
+}
+
+func govcWrap(rs ...interface{}) []interface{} { return rs }
+`, pkgName, imports, body.String(), fn.Name()+"("+strings.Join(args, ", ")+")")
+	if fn.Signature.Results().Len() == 0 {
+		src = strings.Replace(src, "res := fmt.Sprint(func() []interface{} { return govcWrap("+fn.Name()+"("+strings.Join(args, ", ")+")) }())", fn.Name()+"("+strings.Join(args, ", ")+")\n\tres := \"\"", 1)
+	}
+	rec := runReplayTest(fn.Pkg.Pkg.Path(), src, dir, name)
+	rec["inputs"] = inputs
+	out, _ := rec["output"].(string)
+	panicked := strings.Contains(out, "GOVC-REPLAY panic:")
+	returned := strings.Contains(out, "GOVC-REPLAY returned normally")
+	switch o.Kind {
+	case "bounds", "nil", "div", "panic", "pre-panic", "conv":
+		rec["confirmed"] = panicked
+		if !panicked && returned {
+			rec["reason"] = "the real code returned normally on the model's input (the failed obligation is reported without a failing input)"
+		}
+	default:
+		rec["confirmed"] = false
+		rec["reason"] = "postcondition-type obligation: inputs replayed, outcome recorded, truth of the clause on the outcome not evaluated"
+	}
+	return rec
+}
+
+func runReplayTest(pkgPath, src, dir, name string) map[string]interface{} {
+	rel := strings.TrimPrefix(strings.TrimPrefix(pkgPath, modPath), "/")
+	pkgDir := filepath.Join(repoRoot, rel)
+	testFile := filepath.Join(dir, name+"_test.go.txt")
+	os.WriteFile(testFile, []byte(src), 0o644)
+	ov := map[string]map[string]string{"Replace": {filepath.Join(pkgDir, "zz_govc_replay_test.go"): testFile}}
+	ob, _ := json.Marshal(ov)
+	ovFile := filepath.Join(dir, name+".overlay.json")
+	os.WriteFile(ovFile, ob, 0o644)
+	ctx, cancel := context.WithTimeout(context.Background(), 180*time.Second)
+	defer cancel()
+	cmdline := []string{"test", "-overlay", ovFile, "-vet=off", "-count=1", "-timeout", "60s", "-run", "^TestGovcReplay$", "-v", "."}
+	cmd := exec.CommandContext(ctx, "go", cmdline...)
+	cmd.Dir = pkgDir
+	cmd.Env = append(os.Environ(), "GOFLAGS=-mod=mod")
+	var out bytes.Buffer
+	cmd.Stdout = &out
+	cmd.Stderr = &out
+	cmd.Run()
+	o := out.String()
+	if len(o) > 4000 {
+		o = o[:4000]
+	}
+	return map[string]interface{}{"test_source": src, "test_file": testFile, "package": pkgPath, "command": "cd " + pkgDir + " && go " + strings.Join(cmdline, " "), "output": o}
+}
+
+// replayFile re-runs the test stored in a replay record.
+func replayFile(path string) int {
+	b, err := os.ReadFile(path)
+	if err != nil {
+		fmt.Println(err)
+		return 2
+	}
+	var rec map[string]interface{}
+	if err := json.Unmarshal(b, &rec); err != nil {
+		fmt.Println(err)
+		return 2
+	}
+	fmt.Printf("obligation %v (%v) at %v\n  clause: %v\n  solver: %v by %v\n", rec["obligation"], rec["kind"], rec["at"], rec["clause"], rec["status"], rec["backend"])
+	rp, _ := rec["replay"].(map[string]interface{})
+	if rp == nil {
+		fmt.Println("no replayable input was recorded for this obligation")
+		return 0
+	}
+	src, _ := rp["test_source"].(string)
+	pkg, _ := rp["package"].(string)
+	if src == "" {
+		fmt.Println("no test source recorded:", rp["reason"])
+		return 0
+	}
+	dir := filepath.Join(filepath.Dir(path), "rerun")
+	os.MkdirAll(dir, 0o755)
+	r := runReplayTest(pkg, src, dir, "rerun")
+	fmt.Println(r["command"])
+	fmt.Println(r["output"])
+	if strings.Contains(r["output"].(string), "GOVC-REPLAY panic:") {
+		return 1
+	}
+	return 0
 }
